@@ -79,6 +79,10 @@ class RecIter(ListIter):
             self.log.append((self.src, k))
         return v
 
+    def remaining(self):
+        # like the real file generator (ExactSizeGenerator): size_hint / len() is the line count and never shrinks
+        return len(self.items)
+
 
 def premises(tier, seed, mir, repo, native, procs):
     """The encoding below replaces `pipe` by its specification (order-preserving total map).  That premise is part of this
